@@ -1,3 +1,6 @@
+import os, subprocess
+from .. import core
+
 ID = "C18"
 CLUSTER = "store"
 EXTRACT_V = "ExtractStore.v"
@@ -5,10 +8,84 @@ MODEL_DEPS = ["Base/Bytes.v", "Base/GoSem.v", "Gen/FromGo.v", "DM/Value.v", "Cod
               "Store/Storage.v", "Store/FsStore.v", "Store/FsCrash.v"]
 DRIVER = "c18_driver"
 HARNESS = "c18"
+# -n = number of scenarios (store pre-state x operation x sharding function); every scenario is run once
+# without a fault and once per (system call of the operation) x (SIGKILL | injected errno)
 COUNTS = {"quick": 10, "thorough": 0}
+HARNESS_TIMEOUT = {"quick": 900, "thorough": 3600}
 DESIGN_REF = "DESIGN.md §4 C18"
-TECHNIQUE = "placeholder"
-LEVEL_TEXT = "placeholder"
-LEVEL_NOTE = "placeholder"
-TRUSTED = []
-RULE = "placeholder"
+TECHNIQUE = ("Coq proof of an invariant over all interleavings x crash prefixes x failing system calls of the "
+             "writer state machine + strace system-call trace comparison + SIGKILL/errno injection on the real binary "
+             "(strace -e inject) with verification by a new process + concurrent writers/readers under the race detector")
+LEVEL_TEXT = ("Theorems in coq/Props/C18.v about coq/Store/FsCrash.v: any number of writers (Put, PutVec, PutStream+commit, "
+              "aborted streams; same or different keys), each the one-system-call-per-step state machine of "
+              "coq/Store/FsStore.v (create O_EXCL under .temp, write*, close, Lstat+renameat, mkdir-on-ENOENT and rename again, "
+              "unlink on abort), interleaved arbitrarily, stopped after any number of steps (crash), with any step replaced "
+              "by a failure (a failing write may be short): in every reachable state every key path is absent or holds exactly "
+              "the whole content some writer committed for that key; staging names never coincide with key paths; a fresh "
+              "store opened on any such state accepts further puts and gets. PARTIAL by nature: durability without fsync, "
+              "the kernel's actual rename atomicity and real thread scheduling are outside the model (exercised, not proved).")
+LEVEL_NOTE = ("Partial: the POSIX facts the proof rests on are built into the model's system-call semantics and trusted "
+              "(renameat atomic and replacing; O_EXCL; a staging file is visible only under .temp; an open descriptor keeps "
+              "its inode). No fsync is issued by the code, so durability across power loss is NOT claimed (only process "
+              "death). Real scheduling is sampled by concurrent goroutines under the race detector, not enumerated. "
+              "Keys subject to the C17 defect (escapingFunc never applied: keys with '/', '.', NUL, empty) are excluded "
+              "explicitly by the hypothesis [keypath]; C18_staging_collision_refuted shows why.")
+TRUSTED = ["POSIX semantics as modelled in coq/Store/FsStore.v sys_exec: renameat is atomic and replaces its destination; "
+           "open(O_CREAT|O_EXCL) fails if the name exists; mkdir/unlink/rename failures have no effect; a failing write may be short",
+           "a reader that has opened a file keeps reading the inode it opened (fsstore never writes to an inode after renaming it)",
+           "package os as modelled: os.Rename = Lstat(new) [+ Lstat(old)] + renameat, reporting EEXIST itself when new is a directory; "
+           "os.Remove = unlink (+ rmdir attempt, dropped from traces)",
+           "strace 6.1 (-f, -e inject=<syscall>:signal=SIGKILL|error=E:when=k): the signal arrives on syscall entry, the call is not executed (measured)",
+           "crypto/rand staging names are modelled as fresh names; O_EXCL retry is modelled; durability without fsync is NOT modelled"]
+RULE = ("scenarios = sharding function x store pre-state (empty, shard directories exist, key already stored, other key) x "
+        "operation (Put, PutVec 3 chunks, aborted PutStream, empty block, 1 KiB block); each once fault-free (trace compared "
+        "with the model's system-call list), once killed before each of its system calls, and once per system call x errno "
+        "(EIO; +ENOSPC, EACCES on write/rename/mkdir/create; +EEXIST on create; +ENOENT on rename); after each run a new "
+        "process lists the store, reads every key and does a further put/get; distinct = distinct (scenario, fault)")
+
+
+def classify(fs):
+    if fs[2] == "conc":
+        return "conc:" + fs[1].split(",")[0]
+    return fs[3] + ":" + fs[1].split(",")[0] + ":" + fs[6].split("@")[0]
+
+
+def nontrivial(fs):
+    return True
+
+
+def extra(ctx):
+    """concurrent writers/readers (same and different keys) in a -race build; a reader asserts
+    absent-or-complete.  Also checks that strace fault injection is operational (otherwise the
+    crash enumeration above would be vacuous)."""
+    res = []
+    rc, out = core.sh("strace -V", timeout=20)
+    res.append({"name": "runtime: strace with fault injection available", "ok": rc == 0, "info": out.strip().split("\n")[0]})
+    with core.Lock():
+        ok, log = core.build_harness(["c18"], race=True)
+    if not ok:
+        res.append({"name": "runtime: c18 builds with the race detector", "ok": False, "info": log[-400:]})
+        return res
+    outp = os.path.join(ctx.rundir, "race_cases.txt")
+    env = dict(os.environ)
+    env["C18_MODE"] = "conc"
+    exe = os.path.join(core.BIN + "-race", "c18")
+    p = subprocess.run([exe, "-tier", ctx.tier, "-seed", str(ctx.seed), "-out", outp], cwd=core.ROOT, env=env,
+                       stdout=subprocess.PIPE, stderr=subprocess.PIPE, timeout=1800)
+    err = p.stderr.decode("utf8", "replace")
+    fails = []
+    n = 0
+    if os.path.exists(outp):
+        for line in open(outp):
+            fs = line.rstrip("\n").split("\t")
+            n += 1
+            if fs[-1] != "readers_ok":
+                cls = fs[-1].split(":")[0]
+                fails.append({"case": fs, "classes": [cls], "verdict": "fail:" + cls})
+    race = "DATA RACE" in err
+    if race:
+        fails.append({"case": ["race-detector", err[-1500:]], "classes": ["data_race_fsstore"], "verdict": "fail:data_race_fsstore"})
+    res.append({"name": "runtime: %d concurrent writer/reader runs under the race detector: every read absent-or-complete, no data race" % n,
+                "ok": p.returncode == 0 and not fails and n > 0, "info": "rc=%d %s" % (p.returncode, err[-300:] if p.returncode else ""),
+                "failures": fails})
+    return res
